@@ -54,7 +54,7 @@ Lemma ws_textc c : is_ws c = true -> is_textc c = true.  Proof. char_cases c. Qe
 
 (* first character of a rendered operand *)
 Definition is_ophead (c : ascii) : bool :=
-  orb (one_of "%$(-" c) (orb (is_digit c) (is_idfirst c)).
+  orb (one_of "%$(-*" c) (orb (is_digit c) (is_idfirst c)).
 Lemma ophead_not_ws c : is_ophead c = true -> is_ws c = false.  Proof. char_cases c. Qed.
 Lemma ophead_not_comma c : is_ophead c = true -> Ascii.eqb c "," = false.  Proof. char_cases c. Qed.
 Lemma ophead_not_hash c : is_ophead c = true -> Ascii.eqb c "#" = false.  Proof. char_cases c. Qed.
@@ -208,3 +208,24 @@ Proof.
   { destruct r; simpl; [reflexivity|]. rewrite idfirst_not_0 by assumption. reflexivity. }
   rewrite Hp. unfold parse_dec. simpl. rewrite idfirst_not_digit by assumption. reflexivity.
 Qed.
+
+(* ---------------------------------------------------------------- digit strings always convert *)
+Lemma dec_digit_some c : is_digit c = true -> exists f, dec_digit c = Some f.
+Proof. destruct c as [[|] [|] [|] [|] [|] [|] [|] [|]]; try discriminate; intros _; eexists; reflexivity. Qed.
+Lemma hex_digit_some c : is_hex c = true -> exists f, hex_digit c = Some f.
+Proof. destruct c as [[|] [|] [|] [|] [|] [|] [|] [|]]; try discriminate; intros _; eexists; reflexivity. Qed.
+Lemma dec_of_chars_some d : forallb is_digit d = true -> exists u, dec_of_chars d = Some u.
+Proof.
+  induction d as [|c d IH]; simpl; intro H; [eexists; reflexivity|].
+  apply andb_true_iff in H. destruct H as [Hc Hd].
+  destruct (dec_digit_some c Hc) as (f & ->). destruct (IH Hd) as (u & ->). eexists; reflexivity.
+Qed.
+Lemma hex_of_chars_some d : forallb is_hex d = true -> exists u, hex_of_chars d = Some u.
+Proof.
+  induction d as [|c d IH]; simpl; intro H; [eexists; reflexivity|].
+  apply andb_true_iff in H. destruct H as [Hc Hd].
+  destruct (hex_digit_some c Hc) as (f & ->). destruct (IH Hd) as (u & ->). eexists; reflexivity.
+Qed.
+Lemma brk_not_bf c : is_brk c = true -> one_of "bBfF" c = false.  Proof. char_cases c. Qed.
+Lemma bf_not_digit c : one_of "bBfF" c = true -> is_digit c = false.  Proof. char_cases c. Qed.
+Lemma x_not_bf : one_of "bBfF" "x" = false.  Proof. reflexivity. Qed.
